@@ -4,7 +4,7 @@ spec/Features.tla: a configuration is a subset of the eight optional features; M
 with F offers the operations Provided(F) and ALL configurations share one history machine (Api.tla): a call returns the same
 abstract result whichever configuration answers it.
   spec->impl: MC_Features - TLC enumerates the 256 configurations (one state each) with what must hold; each selected one is
-              built from /repo's working tree (cargo check in a scratch target directory outside /repo and /verif);
+              built from /repo's working tree (cargo check of /repo's working tree with a build cache under work/);
   impl->spec: a small executor (featlite/) is compiled against each selected buildable configuration, the same corpus of
               calls (parse+format, JSON and CBOR validation) is run by every one of them, and Trace_Features drives
               Api!Return per recorded answer: an answer that contradicts what another configuration returned is not a
@@ -45,10 +45,11 @@ def missing_class(s):
 
 
 def cargo_check(sets, jobs):
-    """cargo check --lib of /repo for each feature set; scratch target dirs under /tmp, removed afterwards"""
+    """cargo check --lib of /repo (current working tree) for each feature set"""
     results = {}
     env = dict(os.environ, CARGO_NET_OFFLINE="true")
-    dirs = [tempfile.mkdtemp(prefix="c19_check_", dir="/tmp") for _ in range(jobs)]
+    # build caches (not copies of the repository): kept under work/ so that later runs only recompile the crate itself
+    dirs = [os.path.join(vlib.VERIF, "work", PID, "check_target_%d" % k) for k in range(jobs)]
 
     def worker(k):
         out = {}
@@ -68,8 +69,7 @@ def cargo_check(sets, jobs):
             for r in ex.map(worker, range(jobs)):
                 results.update(r)
     finally:
-        for d in dirs:
-            shutil.rmtree(d, ignore_errors=True)
+        pass
     return results
 
 
@@ -98,11 +98,33 @@ def run_featlite(binary, ops, timeout=600):
     return [res.get(o["id"], {"crash": True}) for o in ops]
 
 
+def squeeze(text):
+    """formatted text with all white space outside text / byte string literals removed"""
+    out, q = [], None
+    i = 0
+    while i < len(text):
+        c = text[i]
+        if q:
+            out.append(c)
+            if c == "\\" and i + 1 < len(text):
+                out.append(text[i + 1])
+                i += 1
+            elif c == q:
+                q = None
+        elif c in "\"'":
+            q = c
+            out.append(c)
+        elif not c.isspace():
+            out.append(c)
+        i += 1
+    return "".join(out)
+
+
 def abstract(op, obs):
     """abstract result compared across configurations: acceptance (+ formatted text for parse), validation verdict"""
     if op["op"] == "parse":
         if obs.get("ok") is True:
-            return {"kind": "accepted", "errs": [{"loc": "fmt", "reason": " ".join(obs.get("fmt", "").split())}]}
+            return {"kind": "accepted", "errs": [{"loc": "fmt", "reason": squeeze(obs.get("fmt", ""))}]}
         if obs.get("ok") is False:
             return {"kind": "rejected", "errs": []}
     elif "kind" in obs:
@@ -182,9 +204,12 @@ def run():
             continue
         bins.append((s, b))
     answered = 0
-    agree_nontrivial = set()
+    spaced = {}       # call id -> set of formatted texts (white space collapsed) seen across configurations
     for s, b in bins:
         obs = run_featlite(b, ops)
+        for o, ob in zip(ops, obs):
+            if o["op"] == "parse" and ob.get("ok") is True:
+                spaced.setdefault(o["id"], set()).add(" ".join(ob.get("fmt", "").split()))
         provided = {"parse"} | ({"validate_json"} if "json" in s else set()) | ({"validate_cbor"} if "cbor" in s else set())
         for o, ob in zip(ops, obs):
             if o["op"] not in provided:
@@ -227,6 +252,14 @@ def run():
                           {"property": PID, "kind": "behaviour", "set": list(s), "op": op, "observed": ob, "verdict": o["v"],
                            "spec": "Features / Api!Return (shared history of all configurations)"})
     os.remove(path)
+    # listed finding: the two printer copies space tokens differently (same tokens, different white space)
+    n_spacing = sum(1 for v in spaced.values() if len(v) > 1)
+    if n_spacing:
+        if "C19-printer-spacing-without-ast-comments" in finding_ids:
+            for _ in range(n_spacing):
+                out.known_hit("C19-printer-spacing-without-ast-comments")
+        else:
+            out.violation("formatted-text-spacing", {"property": PID, "kind": "spacing", "texts": sorted(next(v for v in spaced.values() if len(v) > 1))})
     wall = time.time() - t0
     if len(bins) < 2 or answered < 200:
         raise vlib.ToolError("vacuity gate: %d executors, %d answers" % (len(bins), answered))
